@@ -225,6 +225,86 @@ func main() {
 """,
 }
 
+BONDGO_PROGS["scoped1.go"] = """package main
+
+import (
+	"bondgo"
+)
+
+func main() {
+	var q0 bondgo.Output
+	var total uint8
+	q0 = bondgo.Make(bondgo.Output, 3)
+	total = 2
+	{
+		var left uint8
+		var right uint8
+		left = total + 1
+		right = left + 1
+		total = right
+	}
+	var last uint8
+	last = total + 1
+	bondgo.IOWrite(q0, last)
+}
+"""
+
+BONDGO_PROGS["scoped2.go"] = """package main
+
+import (
+	"bondgo"
+)
+
+func relay(in chan uint8, out chan uint8) {
+	var got uint8
+	var keep uint8
+	got = <-in
+	keep = got
+	if got == 3 {
+		var p uint8
+		var q uint8
+		var s uint8
+		p = got + 1
+		q = p + 2
+		s = q + p
+		keep = s
+	} else {
+		var t uint8
+		t = got + 5
+		keep = t
+	}
+	var fin uint8
+	fin = keep + 1
+	out <- fin
+}
+
+func main() {
+	var p0 bondgo.Input
+	var q0 bondgo.Output
+	var x uint8
+	var c1 chan uint8
+	var c2 chan uint8
+	p0 = bondgo.Make(bondgo.Input, 3)
+	q0 = bondgo.Make(bondgo.Output, 5)
+	go relay(c1, c2)
+	x = bondgo.IORead(p0)
+	{
+		var y uint8
+		{
+			var z uint8
+			z = x + 1
+			y = z + 1
+		}
+		x = y
+	}
+	var w uint8
+	w = x + 1
+	c1 <- w
+	w = <-c2
+	bondgo.IOWrite(q0, w)
+}
+"""
+
 BMB_BASM = """%%meta bmdef global registersize:%d
 %%section code .romtext iomode:async
 	entry _start
@@ -244,7 +324,9 @@ _start:
 
 def saved_machines(rep, thorough):
     """front-ends that save a machine themselves (JSON): bondgo in its multi-processor modes and bmbuilder, with standard and
-    non-standard register sizes.  -> [(kind, what, json path)], notes"""
+    non-standard register sizes.  -> [(kind, what, json path, [assembly file per processor])], notes.
+    scoped1/scoped2: memory variables (names without the reg_ prefix live in RAM) local to bare nested blocks and to if/else
+    branches, released and re-used across a power of two of RAM cells."""
     d = vlib.scratch_dir("c16" + vlib._REPO_TAG)
     res = []
     notes = []
@@ -252,23 +334,34 @@ def saved_machines(rep, thorough):
         bg = vlib.go_build_repo("bondgo")
         for name, text in BONDGO_PROGS.items():
             open(os.path.join(d, name), "w").write(text)
-        runs = [("pipe2.go", ["-mpm"], 8), ("pipe2.go", ["-mpm"], 12), ("pipe3.go", ["-mpm"], 24)]
+        runs = [("pipe2.go", ["-mpm"], 8), ("pipe2.go", ["-mpm"], 12), ("pipe3.go", ["-mpm"], 24), ("scoped1.go", ["-mpm"], 12), ("scoped2.go", ["-mpm"], 8)]
         if thorough:
             runs += [("pipe3.go", ["-mpm"], rs) for rs in (8, 16, 32, 64, 7, 12, 33)] + [("pipe2.go", ["-mpm"], rs) for rs in (16, 32, 64, 24)]
             runs += [("pipe3.go", ["-mpm", "-cascading-io"], rs) for rs in (8, 12)]
+            runs += [("scoped1.go", ["-mpm"], rs) for rs in (8, 24)] + [("scoped2.go", ["-mpm"], rs) for rs in (12, 24)]
         for prog, opts, rs in runs:
             outj = os.path.join(d, "bg-%s%s-%d.json" % (prog, "".join(opts), rs))
-            if os.path.exists(outj):
-                os.remove(outj)
-            rc, so, se = vlib.run([bg, "-input-file", prog] + opts + ["-register-size", str(rs), "-save-bondmachine", outj], timeout=90, cwd=d)
+            asmp = outj[:-5] + "-asm"
+            for f in [outj] + [os.path.join(d, x) for x in os.listdir(d) if x.startswith(os.path.basename(asmp) + "_")]:
+                if os.path.exists(f):
+                    os.remove(f)
+            rc, so, se = vlib.run([bg, "-input-file", prog] + opts + ["-register-size", str(rs), "-save-bondmachine", outj,
+                                   "-save-assembly", asmp], timeout=90, cwd=d)
+            asms = []
+            while os.path.exists("%s_%d" % (asmp, len(asms))):
+                asms.append("%s_%d" % (asmp, len(asms)))
             if rc == 0 and os.path.exists(outj):
-                res.append(("bondgo:" + "+".join(o.lstrip("-") for o in opts), "%s register-size=%d" % (prog, rs), outj))
+                res.append(("bondgo:" + "+".join(o.lstrip("-") for o in opts), "%s register-size=%d" % (prog, rs), outj, asms))
             else:
                 notes.append("bondgo %s on %s with register size %d saved no machine: rc=%s %s" % (" ".join(opts), prog, rs, rc, (so + se)[-200:]))
         # the multi-abstract-assembly input: one assembly text per processor + the bonds
         maa = os.path.join(d, "maa.json")
-        json.dump({"ProcProgs": ["clr r0\ni2r r0 i0\nr2o r0 o0", "clr r0\ni2r r0 i0\nr2o r0 o0\nr2o r0 o1"],
-                   "Bonds": ["i0,p0i0", "p0o0,p1i0", "p1o0,o0", "p1o1,o1"]}, open(maa, "w"))
+        progs = ["clr r0\ni2r r0 i0\nr2o r0 o0", "clr r0\ni2r r0 i0\nr2o r0 o0\nr2o r0 o1"]
+        json.dump({"ProcProgs": progs, "Bonds": ["i0,p0i0", "p0o0,p1i0", "p1o0,o0", "p1o1,o1"]}, open(maa, "w"))
+        maa_asms = []
+        for k, t in enumerate(progs):
+            maa_asms.append(os.path.join(d, "maa-asm_%d" % k))
+            open(maa_asms[-1], "w").write(t + "\n")
         for rs in ([16, 12] if not thorough else [8, 16, 32, 64, 12, 24]):
             outj = os.path.join(d, "bg-maa-%d.json" % rs)
             if os.path.exists(outj):
@@ -276,7 +369,7 @@ def saved_machines(rep, thorough):
             rc, so, se = vlib.run([bg, "-multi-abstract-assembly-input", "-input-file", maa, "-register-size", str(rs), "-save-bondmachine", outj],
                                   timeout=90, cwd=d)
             if rc == 0 and os.path.exists(outj):
-                res.append(("bondgo:multi-abstract-assembly", "maa.json register-size=%d" % rs, outj))
+                res.append(("bondgo:multi-abstract-assembly", "maa.json register-size=%d" % rs, outj, maa_asms))
             else:
                 notes.append("bondgo -multi-abstract-assembly-input with register size %d saved no machine: rc=%s %s" % (rs, rc, (so + se)[-200:]))
     except vlib.BuildError as e:
@@ -295,7 +388,7 @@ def saved_machines(rep, thorough):
                 os.remove(outj)
             rc, so, se = vlib.run([bb, "-save-bondmachine", outj, bmb], timeout=90, cwd=d)
             if rc == 0 and os.path.exists(outj) and os.path.getsize(outj) > 10:
-                res.append(("bmbuilder:sequential", "two basm machines of register size %d in a sequential block" % rs, outj))
+                res.append(("bmbuilder:sequential", "two basm machines of register size %d in a sequential block" % rs, outj, []))
             else:
                 notes.append("bmbuilder (register size %d) saved no machine: rc=%s %s" % (rs, rc, (so + se)[-200:]))
     except vlib.BuildError as e:
@@ -339,8 +432,8 @@ def run(rep):
             insts += instances(model)
         saved, notes2 = saved_machines(rep, thorough)
         notes += notes2
-        for kind, what, path in saved:
-            _, model = run_pair(hbin, ["json", kind, what, path])
+        for kind, what, path, asms in saved:
+            _, model = run_pair(hbin, ["json", kind, what, path] + asms)
             insts += instances(model)
     # ---- evidence ----
     by_fe = {}
